@@ -43,6 +43,9 @@ func addProp(s *PropSpec) {
 	if s.Trusted == nil {
 		s.Trusted = baseTrusted
 	}
+	if s.ExtraConfigs == nil {
+		s.ExtraConfigs = archConfigs
+	}
 	props[s.ID] = s
 }
 
